@@ -39,11 +39,11 @@ type fkCon struct {
 // most one uncommitted version (rows written by an open transaction are
 // locked against other writers, so there is never more than one).
 type slot struct {
-	committed []Value
-	pending   []Value // valid if pendingTx != nil && !pendingDel
-	pendingTx *txn
+	committed  []Value
+	pending    []Value // valid if pendingTx != nil && !pendingDel
+	pendingTx  *txn
 	pendingDel bool
-	dead      bool // removed from the table
+	dead       bool // removed from the table
 }
 
 type table struct {
